@@ -382,6 +382,33 @@ example : run Gen.Commit.steps .beveZst sOk idCodec = ⟨[], .err⟩ := by decid
 example : (runOps ⟨some [9], none⟩ (crash 6 (run Gen.Commit.steps .file sOk idCodec).ops)).dest = some [9] := by decide
 example : (runOps ⟨some [9], none⟩ (crash 7 (run Gen.Commit.steps .file sOk idCodec).ops)).dest = some [1, 2, 3, 4, 5] := by decide
 
+/-! hypotheses of the fault lemmas and of the value theorems are met by concrete scripts -/
+def needFive : Decoder Bytes := ⟨fun acc => if acc.length ≥ 5 then some (acc.take 5) else none, fun _ => none⟩
+def sloppy : Decoder Bytes := ⟨fun _ => none, fun bs => some bs⟩
+
+example : valueSync needFive sOk.wire = some [1, 2, 3, 4, 5] := by decide
+example : valueAsync Gen.Commit.pullResFirst needFive false sOk.wire = some [1, 2, 3, 4, 5] := by decide
+example : valueSync sloppy sOk.wire = some [1, 2, 3, 4, 5] := by decide
+-- truncated stream, decoder that would hand out a value at a short EOF: error all the same
+example : payload (faultWire [[1, 2], [3]] 1 .cut []) = none ∧ ∀ bs, sloppy.early bs = none := ⟨by decide, fun _ => rfl⟩
+example : valueSync sloppy (faultWire [[1, 2], [3]] 1 .error []) = none := by decide
+example : valueAsync Gen.Commit.pullResFirst sloppy true (faultWire [[1, 2], [3]] 1 .error []) = none := by decide
+-- all bytes of the value arrived, only `last` was replaced by an error: the sync decoder has its value
+-- (first disjunct of `value_sync_error_first`), the async pull reports the pull error
+example : valueSync needFive (faultWire [[1, 2], [3, 4, 5]] 2 .error []) = some [1, 2, 3, 4, 5] := by decide
+example : valueAsync Gen.Commit.pullResFirst needFive false (faultWire [[1, 2], [3, 4, 5]] 2 .error []) = none := by decide
+-- `verify_reject_fails`, `short_trailer_fails`, `early_stop_fails`
+example : Puller.verifiedAsync.verifies = true ∧ ({ sOk with verifyOk := false } : Script).verifyOk = false := by decide
+example : expected .trailer { sOk with trailer := 6 } idCodec = none := by decide
+example : ∀ wb lg, payload ({ sOk with trailer := 6 } : Script).wire = some wb →
+    (if ({ sOk with trailer := 6 } : Script).comp = .zstd then idCodec.dec wb else some wb) = some lg → lg.length < 6 := by
+  intro wb lg h1 h2
+  have : payload ({ sOk with trailer := 6 } : Script).wire = some [1, 2, 3, 4, 5] := by decide
+  rw [this] at h1; cases h1
+  simp [sOk] at h2; subst h2; decide
+example : expected .file { sOk with stop := some 2, wire := [[1, 2], [3]].map (fun c => .chunk c false) ++ [.chunk [4] true] } idCodec
+    = none := by decide
+
 /-! ### why the extracted order matters (what the theorems would lose) -/
 
 /-- `write_file` without the `last_seen` test publishes a short file when the fill stops early. -/
